@@ -47,6 +47,8 @@ for _u in range(2):
     OPS.append(("remove_local", _u))
     OPS.append(("manage", _u))                     # manage-name-id: set SPProvidedID on the persistent id for (u, sp one)
     OPS.append(("mapping", _u))                    # name-id-mapping: persistent id for sp two from the one for sp one
+for _u in range(2):
+    OPS.append(("bogus_withdraw", _u))            # remove_remote of a NameID that was never issued: the text of the id for (u, sp one) under sp two's qualifier
 NOPS = len(OPS)
 
 
@@ -121,6 +123,13 @@ def history(o1: int, o2: int, o3: int, o4: int, n: int, g1: int, g2: int, g3: in
                     db.remove_remote(nid)
                     issued.pop(t, None)
                     withdrawn.add(t)
+            elif kind == "bogus_withdraw":
+                _, u = op
+                if (u, 1) in pers:
+                    try:
+                        db.remove_remote(NameID(text=pers[(u, 1)], format=NAMEID_FORMAT_PERSISTENT, sp_name_qualifier=SPS[2], name_qualifier=db.name_qualifier))
+                    except Exception:
+                        pass            # refusing is fine; what was issued must stay intact either way (checked below)
             elif kind == "remove_local":
                 _, u = op
                 db.remove_local(USERS[u])
@@ -192,13 +201,13 @@ CONDITIONS = [
          pre=["0 <= o1 < %d" % NOPS, "0 <= o2 < %d" % NOPS, "0 <= o3 < %d" % NOPS, "0 <= o4 < %d" % NOPS, "1 <= n <= 4",
               "0 <= g1 <= 2", "0 <= g2 <= 2", "0 <= g3 <= 2"],
          partitions={"quick": [{"n": 2, "o3": 0, "o4": 0, "o1": a, "g1": 0, "g2": 1, "g3": 2} for a in range(NOPS)] +
-                              [{"n": 3, "o4": 0, "o1": a, "o2": b, "g1": 0, "g2": 1, "g3": 2} for (a, b) in ((0, 2), (3, 10), (3, 11), (6, 9), (15, 5), (1, 2))],
+                              [{"n": 3, "o4": 0, "o1": a, "o2": b, "g1": 0, "g2": 1, "g3": 2} for (a, b) in ((0, 2), (3, 10), (3, 11), (6, 9), (15, 5), (1, 2), (3, 24), (15, 25))],
                      "thorough": [{"n": 3, "o4": 0, "o1": a, "o2": b, "g1": 0, "g2": 1, "g3": 2} for a in range(NOPS) for b in range(NOPS)]},
          timeout={"quick": 600, "thorough": 1800}, path_timeout=60,
          functions=["ident.IdentDB.store/remove_remote/remove_local/get_nameid/create_id/find_nameid/transient_nameid/persistent_nameid/find_local_id/match_local_id/"
                     "handle_name_id_mapping_request/handle_manage_name_id_request/construct_nameid/nim_args", "ident.code/decode"],
          bounds="histories of 2 (quick, all) and 3 (thorough, all; quick: two sampled prefixes) operations over %d op codes = {issue persistent, issue transient, withdraw} x 2 users x "
-                "{no SP, SP one, SP two} + remove_local / manage-name-id / name-id-mapping per user; id generator always fresh" % NOPS),
+                "{no SP, SP one, SP two} + remove_local / manage-name-id / name-id-mapping / withdrawal of a never-issued NameID carrying an issued text per user; id generator always fresh" % NOPS),
 ]
 
 ASSUMPTIONS = [
